@@ -1,7 +1,7 @@
 """Python ast -> Lean translators; each regenerates one file under lean/Petl/Gen."""
 import importlib
 
-NAMES = ['ladder', 'sort_wiring', 'ctor_purity', 'heap_ir', 'selectors', 'policy', 'streaming', 'argforms', 'bare_next', 'merge_shape', 'fingerprints']
+NAMES = ['ladder', 'sort_wiring', 'ctor_purity', 'heap_ir', 'selectors', 'policy', 'streaming', 'argforms', 'bare_next', 'merge_shape', 'fingerprints', 'pullshape']
 
 
 def run_all():
